@@ -29,6 +29,7 @@ Operations (tuples)
   ('rename', w, n)               W[w].rename(n)
   ('reparent', w, P)             W[w].reparent(P)
   ('reparentAndRename', w, P, n) W[w].reparentAndRename(P, n)
+  ('disc', w, n)                 disconnectWireFromLogicObject(W[w], top.children[n])
 """
 
 TOP = ()
@@ -103,6 +104,10 @@ def enabled_ops(net, max_wires):
         for r in hs:
             ops.append(('wrap', n, r))
     for w in hs:
+        for n in net.objs[TOP]['children']:
+            if n != 'c':
+                ops.append(('disc', w, n))
+    for w in hs:
         for n in WIRE_NAMES:
             ops.append(('rename', w, n))
         for P in parents:
@@ -110,6 +115,12 @@ def enabled_ops(net, max_wires):
             for n in WIRE_NAMES:
                 ops.append(('reparentAndRename', w, P, n))
     return ops
+
+
+def attached_drivers(net, h):
+    """(path, port) of every primitive block whose output port is attached to wire h"""
+    return [(p, pn) for p, o in sorted(net.objs.items()) if o['kind'] in ('Buf', 'Constant')
+            for pn, hh in o['outs'] if hh == h]
 
 
 # ---------------------------------------------------------------------------
@@ -132,8 +143,12 @@ def conflicts(net, op):
         n, r = op[1], op[-1]
         if n in net.objs[TOP]['children']:
             out.append(('child', TOP, n))
-        if net.wires[r]['src'] is not None:
+        # a driver of a wire = a primitive block with an output port attached to it (normally also the wire's
+        # registered source; the two can only differ after a disconnect)
+        if net.wires[r]['src'] is not None or attached_drivers(net, r):
             out.append(('driver', r))
+    elif k == 'disc':
+        pass            # removes a connection: cannot create a conflict
     else:
         w = op[1]
         wi = net.wires[w]
@@ -153,10 +168,47 @@ def conflicts(net, op):
 # bookkeeping (what the structure is after the call)
 # ---------------------------------------------------------------------------
 
-def apply(net, op, residue=False):
+def apply(net, op, residue=False, general=False):
     """-> (outcome, net')   outcome in {'ok', 'raise'}; net is not modified."""
     s = net.copy()
     k = op[0]
+    if k == 'disc':
+        _, w, n = op
+        o = s.objs[(n,)]
+        wi = s.wires[w]
+        if general:
+            # an implementation that looks at the object's own port list (so that structural blocks can be
+            # disconnected too): first out port, then first in port, attached to the wire
+            for i, (pn, hh) in enumerate(o['outs']):
+                if hh == w:
+                    wi['src'] = None
+                    o['outs'][i] = (pn, None)
+                    return 'ok', s
+            for i, (pn, hh) in enumerate(o['ins']):
+                if hh == w:
+                    if ((n,), pn) in wi['sinks']:
+                        wi['sinks'].remove(((n,), pn))
+                    o['ins'][i] = (pn, None)
+                    return 'ok', s
+            return 'raise', s
+        if wi['src'] is not None and wi['src'][0] == (n,):
+            pn = wi['src'][1]
+            wi['src'] = None
+            o['outs'] = [(q, None if (q == pn and hh == w) else hh) for q, hh in o['outs']]
+            return 'ok', s
+        for sink in wi['sinks']:
+            if sink[0] == (n,):
+                wi['sinks'].remove(sink)
+                done = [False]
+
+                def f(q, hh):
+                    if not done[0] and q == sink[1] and hh == w:
+                        done[0] = True
+                        return (q, None)
+                    return (q, hh)
+                o['ins'] = [f(q, hh) for q, hh in o['ins']]
+                return 'ok', s
+        return 'raise', s
     if k == 'wire':
         _, P, n = op
         if n in s.objs[P]['wires']:
